@@ -60,12 +60,31 @@ def buffered_view(rng, adocs, keys):
         finally:
             s.close()
         cases.append({"idx": idx, "obs": obs, "cfg": {"view": "BufferedWriter.searcher()"}, "plan": None, "adocs": adocs})
+        # commit() is a commit for everybody else too - also one that only carries deletions of documents
+        # that are already on disk (nothing is in the buffer then)
+        gone = []
+        if rng.random() < 0.7:
+            bw.commit()
+            g0 = w.ix.latest_generation()
+            gone = [keys[0]] + ([keys[-1]] if rng.random() < 0.5 else [])
+            for k in gone:
+                bw.delete_by_term("key", k)
+            bw.commit()
+            with w.ix.reader() as rd:
+                seen = sorted(d["key"] for _, d in rd.iter_docs())
+                cases.append({"idx": {"docs": []}, "obs": [
+                    {"kind": "flag", "path": "a BufferedWriter.commit() that only carries deletions is visible to a new reader",
+                     "value": seen == sorted(k for k in keys if k not in gone)},
+                    {"kind": "flag", "path": "... and wrote exactly one new generation",
+                     "value": w.ix.latest_generation() == g0 + 1}],
+                    "cfg": {"view": "delete-only BufferedWriter.commit()"}, "plan": None, "adocs": adocs})
+        keys = [k for k in keys if k not in gone]
         bw.close()
         with w.ix.reader() as rd:
             idx = cworld.abstract_index(rd, adocs)
             obs = cworld.dump(rd, idx, w.schema, rng=rng, maxterms=10)
             obs.append({"kind": "flag", "path": "after BufferedWriter.close() nothing is unsaved",
-                        "value": sorted(d["key"] for d in idx["docs"]) == sorted(keys)})
+                        "value": sorted(d["key"] for d in idx["docs"] if d["live"]) == sorted(keys)})
         cases.append({"idx": idx, "obs": obs, "cfg": {"view": "after BufferedWriter.close()"}, "plan": None, "adocs": adocs})
     finally:
         w.close()
